@@ -36,6 +36,10 @@ def build(tier, repo):
     mr.duality_rule(r5, w)
     nr = mr.dead_refusal_rule(r3, w)
     chk.note_analysed("raise_statements_checked", nr)
+    r8 = chk.rule("C11-R8", "read-modify-write through an alias: the alias still denotes the object that is written",
+                  "f.value() equals the formula when a scalar and a row coefficient of one variable are merged")
+    nsa = mr.stale_alias_rule(r8, w)
+    chk.note_analysed("aliased_read_modify_writes", nsa)
     r7 = chk.rule("C11-R7", "negated terms change between the convex and the concave list, copied terms do not",
                   "combinations that are not convex or concave are refused; a function accepted as convex really is")
     nn = mr.curvature_sign_rule(r7, w)
